@@ -122,7 +122,7 @@ def select : Handler := fun j => do
       pure (Json.mkObj [("ok", Json.bool true), ("selected", jNats (sortNats sel)),
         ("count", jNat (r.g.countTargets sel)), ("skipped", jNat (r.g.skipped r.s r.h)),
         ("cost", jNat cost)])
-    | .platformError _ => pure (fail "platform")
+    | .platformError _ _ => pure (fail "platform")
     | .fuel => pure (fail "fuel")
 
 /-- {"op":"graph.query", <as graph.select>, "q":[{"k":"deps"|"rdeps","t":bool,"v":i} | {"k":"list"} |
